@@ -404,3 +404,20 @@ Fixpoint enc_trace (els : list element) (tail : bytes) : list (item * bytes) :=
   | [] => []
   | e :: r => (Ok (compact e), wire_list (map to_opt r) ++ tail) :: enc_trace r tail
   end.
+
+(* ---- the model against the executable reference decoder of Spec.v ----------- *)
+(* one call of next() *)
+Definition agrees (m : M (option item * bytes)) (s : sitem) : Prop :=
+  match m with
+  | Ret (None, r) => s = SEnd /\ r = []
+  | Ret (Some (Ok e), r) => s = SOk (to_opt e) r
+  | Ret (Some (Err e), r) => s = SErr e /\ r = []
+  | _ => False
+  end.
+(* a whole trace in the reference decoder's vocabulary *)
+Fixpoint sitems_of (tr : list (item * bytes)) : list sitem :=
+  match tr with
+  | [] => [SEnd]
+  | (Ok e, r) :: tl => SOk (to_opt e) r :: sitems_of tl
+  | (Err e, _) :: _ => [SErr e]
+  end.
